@@ -34,7 +34,7 @@ const (
 func TestC26(t *testing.T) {
 	r := ev.Start(t, "C26")
 	defer r.Finish()
-	r.Rule("wallets of 3..8 outputs over 2 accounts x 2 assets x vote/no-vote (two thirds in one class; some immature; some only in the pool; in half of the wallets some mature non-vote outputs may be confirmed AND unconfirmed under one id; rarely a contract output), stored in GoLevelDB. " +
+	r.Rule("wallets of 3..8 outputs over 2 accounts x 2 assets x vote/no-vote (two thirds in one class; some immature; some only in the pool; in half of the wallets some outputs (mature or immature) may be confirmed AND unconfirmed under one id; rarely a contract output), stored in GoLevelDB. " +
 		"seq: 6..14 operations Reserve/ReserveParticular/Cancel/expireReservation(t)/Add-RemoveUnconfirmedUtxo/DB set-delete/height change, amounts chosen at the boundaries of the model's free/reserved/immature sums, each operation and the keeper's tables checked exactly against the set model. " +
 		"seq-huge: the same with amounts in [2^62,2^63). conc: 8 goroutines x 30 operations (+ a locked snapshot after each) stamped by one atomic counter, linearizability checked with porcupine. " +
 		"distinct = (mode, operation, outcome class, selection size / change / pool use / overlap flag)")
